@@ -39,6 +39,10 @@ def encode_arg(st, v):
         return [v.e]
     if isinstance(v, SOpaque):
         return [v.e]
+    if type(v).__name__ == "FnVal":
+        return [z3.IntVal(atom_code("fn:" + v.ref.key))]
+    if type(v).__name__ == "SObj":
+        return [z3.IntVal(atom_code("obj:" + getattr(v.cls, "__name__", "?")))]
     if type(v).__name__ == "SText":
         return [z3.Int(f"{v.name}$id"), V._z(v.offset), V._z(v.length)]
     if isinstance(v, tuple):
@@ -183,10 +187,13 @@ class Protocol:
         for p in m.params:
             if p not in vals:
                 raise PyRaise(SExc(TypeError, (f"{name}: missing argument {p}",)))
-        if m.raises_any and st.fork(2) == 1:
-            st.event("call", recv, name, dict(vals), "raised")
-            self.bump(st, recv)
-            raise PyRaise(SExc(m.raises_any if isinstance(m.raises_any, type) else Exception, ("<opaque callee raised>",), site=f"opaque {self.kind}.{name}"))
+        if m.raises_any:
+            classes = m.raises_any if isinstance(m.raises_any, tuple) else ((m.raises_any,) if isinstance(m.raises_any, type) else (Exception,))
+            k = st.fork(len(classes) + 1)
+            if k > 0:
+                st.event("call", recv, name, dict(vals), "raised")
+                self.bump(st, recv)
+                raise PyRaise(SExc(classes[k - 1], ("<opaque callee raised>",), site=f"opaque {self.kind}.{name}"))
         terms = []
         for p in m.params:
             terms.extend(encode_arg(st, vals[p]))
